@@ -273,6 +273,7 @@ inductive Kind where
   | iface   -- interface or union
   | model   -- object or input object
   | enum
+  | root    -- Query / Mutation / Subscription: resolver interface only (their model struct has no fields)
 deriving Repr, DecidableEq
 
 structure FieldDecl where
@@ -301,7 +302,7 @@ inductive Scope where
   | pkg
   | struct (goName : Name)
   | resolver (typeName : Name)
-  | args (typeName fieldName : Name)
+  | args (typeName goMethod : Name)
 deriving Repr, DecidableEq
 
 def nameOf (r : Reg) (parts : List Name) : Name := (r.lookup (modelKey parts)).getD []
@@ -322,9 +323,9 @@ def emittedModels (ts : List TypeDecl) : List (Scope × Name) × Reg :=
 /-- method and parameter names of the generated `<T>Resolver` interfaces (`codegen/field.go`:
 `GoFieldName = ToGo(field)`, `codegen/args.go`: `VarName = ToGoPrivate(arg)`) -/
 def emittedResolvers (ts : List TypeDecl) : List (Scope × Name) :=
-  (ts.filter (·.kind == .model)).flatMap fun t =>
+  (ts.filter (fun t => t.kind == .model || t.kind == .root)).flatMap fun t =>
     t.fields.flatMap fun f =>
-      (Scope.resolver t.name, toGo f.name) :: f.args.map (fun a => (Scope.args t.name f.name, toGoPrivate a))
+      (Scope.resolver t.name, toGo f.name) :: f.args.map (fun a => (Scope.args t.name (toGo f.name), toGoPrivate a))
 
 def emitted (ts : List TypeDecl) : List (Scope × Name) := (emittedModels ts).1 ++ emittedResolvers ts
 
